@@ -396,6 +396,8 @@ class FX:
         self.local_syms = {}
         self.notes = []
         self.nf_direct = set()
+        self.uninit = {}
+        self.depth = 0
         self.me = f.params[0] if (f.cls is not None and f.kind in ('method', 'property') and f.params) else None
         self.cinfo = pkg.classes.get(f.cls) if f.cls else None
         # parameter variables first, in callee order
@@ -450,14 +452,21 @@ class FX:
         """run fn() collecting the statements it emits into a new block; returns ('seq', [...])"""
         saved = self.block
         self.block = []
+        self.depth += 1
         try:
             r = fn()
         finally:
+            self.depth -= 1
             blk, self.block = self.block, saved
         return ('seq', blk), r
 
     def bind(self, name, v: Val):
         self.var(name)
+        if v.cls == 'uninit':
+            self.uninit[name] = {'depth': self.depth, 'shape': getattr(self, '_last_uninit_shape', None), 'rows': set(), 'cols': set()}
+            v = Val(v.al, v.kind, v.rank, None)
+        else:
+            self.uninit.pop(name, None)
         if self.me and name.startswith(self.me + '.') and v.al:
             self.nf_direct.add(name.split('.', 1)[1])
         if v.al:
@@ -697,6 +706,10 @@ class FX:
             for tt in t.elts:
                 self.assign(tt.value if isinstance(tt, ast.Starred) else tt, e, None)
         elif isinstance(t, ast.Subscript):
+            if isinstance(t.value, ast.Name) and t.value.id in self.uninit and self._initialises(t.value.id, t.slice):
+                self.uninit.pop(t.value.id)
+                self.emit('fresh', t.value.id)      # every element has now been assigned on this (unconditional) path
+                return
             b = self.ev(t.value)
             if not b.al:
                 return                      # writing into a fresh object
@@ -744,6 +757,28 @@ class FX:
             self.assign(t.value, v, None)
         else:
             self.fail(t, 'assignment target')
+
+    def _initialises(self, name, idx):
+        """does `name[idx] = ...`, at the nesting level of the allocation, complete the initialisation of `name`?"""
+        u = self.uninit[name]
+        if self.depth != u['depth']:
+            return False                    # conditional / repeated: fail closed
+        items = list(idx.elts) if isinstance(idx, ast.Tuple) else [idx]
+        full = lambda x: isinstance(x, ast.Slice) and x.lower is None and x.upper is None and x.step is None
+        if all(full(x) or (isinstance(x, ast.Constant) and x.value is Ellipsis) for x in items):
+            return True
+        lit = lambda x: x.value if isinstance(x, ast.Constant) and isinstance(x.value, int) and not isinstance(x.value, bool) else None
+        shp = u['shape']
+        if shp is None:
+            return False
+        first, last, nd = shp
+        if lit(items[0]) is not None and all(full(x) for x in items[1:]) and first is not None and lit(items[0]) >= 0:
+            u['rows'].add(lit(items[0]))
+            return u['rows'] >= set(range(first))
+        if len(items) == nd and lit(items[-1]) is not None and all(full(x) for x in items[:-1]) and last is not None and lit(items[-1]) >= 0:
+            u['cols'].add(lit(items[-1]))
+            return u['cols'] >= set(range(last))
+        return False
 
     def aug(self, s):
         t = s.target
@@ -1134,6 +1169,11 @@ class FX:
             for v in vals[1:]:
                 al |= v.al
             return Val(al, 'unk')
+        if name == 'fill' and isinstance(e.func.value, ast.Name) and e.func.value.id in self.uninit \
+                and self.depth == self.uninit[e.func.value.id]['depth']:
+            self.uninit.pop(e.func.value.id)
+            self.emit('fresh', e.func.value.id)
+            return SCALAR
         if name in TB.M_INPLACE:
             if b.al:
                 self.emit('inplace', self.as_var(b))
@@ -1181,6 +1221,9 @@ class FX:
                 suffix = d[len(mod):]
                 if mod == 'math.':
                     return SCALAR
+                if suffix in TB.NP_UNINIT:
+                    self._last_uninit_shape = self._literal_last_dim(args[0]) if (suffix != 'empty_like' and args) else None
+                    return Val(frozenset([self.gvar(TB.UNINIT_ID)]), 'arr', None, 'uninit')
                 if suffix in TB.NP_FRESH:
                     return FRESH
                 if suffix in TB.NP_ALIAS:
@@ -1209,6 +1252,16 @@ class FX:
         if d.split('.')[-1] in ('Tuple', 'Union', 'Optional'):
             return SCALAR
         self.fail(e, f'unknown external function {d}')
+
+    @staticmethod
+    def _literal_last_dim(node):
+        """(first, last) extents of a literal shape, None where not a literal int"""
+        def lit(x):
+            return x.value if isinstance(x, ast.Constant) and isinstance(x.value, int) else None
+        if isinstance(node, (ast.Tuple, ast.List)) and node.elts:
+            return (lit(node.elts[0]), lit(node.elts[-1]), len(node.elts))
+        v = lit(node)
+        return (v, v, 1) if v is not None else None
 
     def call_super(self, name, e, args, kws, star_kw):
         # the only bases outside the package are object and numpy.ndarray
